@@ -433,3 +433,5 @@ func (w *infWorker) block(n engine.Node, dt time.Duration) (engine.Node, []V) {
 	vs = append(vs, w.invariants(post, "block")...)
 	return c, vs
 }
+
+func (w *infWorker) ProviderForTier2() *env.Provider { return w.p }
